@@ -61,6 +61,9 @@ static void run_case(CaseCtx& c)
         default: if (rng.coin()) { load_files = true; extremes.push_back("load-grid-file-missing"); } else { write_files = true; extremes.push_back("write-grid-file"); } break;
         }
     }
+    // history: in 20% of the cases the object has been set up and solved before with another (valid) inner radius
+    const bool earlier_run = rng.coin(0.2);
+    const double earlier_R0 = cfg.R0 == 1e-2 ? 1e-5 : 1e-2;
     std::string ext;
     std::sort(extremes.begin(), extremes.end());
     extremes.erase(std::unique(extremes.begin(), extremes.end()), extremes.end());
@@ -69,7 +72,7 @@ static void run_case(CaseCtx& c)
     if (ext.empty())
         ext = "none";
     cfg.describe(c.obs.params);
-    c.obs.params.str("extremes", ext).b("paraview", paraview);
+    c.obs.params.str("extremes", ext).b("paraview", paraview).b("earlier_setup_and_solve_on_other_R0", earlier_run);
     c.obs.params.i("raw_extrapolation", raw_extrap).i("raw_cycle", raw_cycle).i("raw_fmg_cycle", raw_fmg_cycle).i("raw_norm", raw_norm).i("raw_strategy", raw_strategy);
     c.announce(ext);
 
@@ -82,7 +85,8 @@ static void run_case(CaseCtx& c)
     std::string outcome = "ran";
     int its = -1;
     double rho = 0, e2 = 0, einf = 0;
-    bool has_err = false, finite_solution = true;
+    bool has_err = false, finite_solution = true, have_indep = false;
+    double indep_e2 = 0, indep_einf = 0;
     int n = 0, nlev = 0;
     try {
         std::unique_ptr<GMGPolar> g = cfg.make_api();
@@ -107,6 +111,12 @@ static void run_case(CaseCtx& c)
             g->file_grid_radii("radii_out.txt");
             g->file_grid_angles("angles_out.txt");
         }
+        if (earlier_run) { // the same object has set up and solved on another inner radius before (same node counts)
+            g->R0(earlier_R0);
+            g->setup();
+            g->solve();
+            g->R0(cfg.R0);
+        }
         g->setup();
         g->solve();
         its  = g->numberOfIterations();
@@ -123,6 +133,23 @@ static void run_case(CaseCtx& c)
             if (has_err) {
                 e2   = *a;
                 einf = *b;
+            }
+            // The errors are recorded before each cycle: after a stop by tolerance the last record belongs to the returned
+            // solution, so it can be recomputed from solution() and the exact solution alone.
+            if (has_err && its < cfg.maxIterations && finite_solution) {
+                auto ex = make_exact(cfg.ps);
+                const PolarGrid& grid = g->grid();
+                long double s2 = 0, mx = 0;
+                for (int i = 0; i < grid.nr(); i++)
+                    for (int j = 0; j < grid.ntheta(); j++) {
+                        double r = grid.radius(i), t = grid.theta(j);
+                        long double d = (long double)ex->exact_solution(r, t, std::sin(t), std::cos(t)) - (long double)u[grid.index(i, j)];
+                        s2 += d * d;
+                        mx = std::max(mx, fabsl(d));
+                    }
+                indep_e2   = (double)(sqrtl(s2) / sqrtl((long double)n));
+                indep_einf = (double)mx;
+                have_indep = true;
             }
         }
     }
@@ -162,6 +189,10 @@ static void run_case(CaseCtx& c)
             c.obs.require("exact_errors_finite", std::isfinite(e2) && std::isfinite(einf) && e2 >= 0 && einf >= 0, ext);
         if (cfg.with_exact && its > 0)
             c.obs.require("exact_errors_present_after_iterations", has_err, ext);
+        if (have_indep && indep_e2 > 0 && indep_einf > 0) {
+            const std::string hk = std::string(earlier_run ? "after-earlier-setup-on-other-R0" : "first-setup") + (cfg.threads > 1 ? "/threads" : "/one-thread");
+            c.obs.check("reported_errors_describe_returned_solution", std::max(std::fabs(e2 - indep_e2) / indep_e2, std::fabs(einf - indep_einf) / indep_einf), hk);
+        }
     }
     (void)must_reject;
     // statistics for the cross-build differential (zero-init vs pattern-init): printed with full precision
